@@ -68,7 +68,13 @@ def run(ctx):
         spec = S.gen_spec(rng, kind)
         plan = S.gen_plan(rng) if i >= len(KINDS) else {}
         store = "sqlite" if i % 3 == 2 else "memory"
-        obs = S.run_case(spec, {k: list(v) for k, v in plan.items()}, store, ctx.scratch, "c15_%d" % i)
+        try:
+            obs = S.run_case(spec, {k: list(v) for k, v in plan.items()}, store, ctx.scratch, "c15_%d" % i)
+        except Exception as ex:  # noqa: BLE001  the real service itself failed in a way the model does not know
+            fails.append(dict(key="service-error", why="the server stack raised %r while running this case (the handler record "
+                              "and the run outcome can no longer be related)" % (ex,), spec=S.describe(spec), faults=plan,
+                              store=store, case_index=i, store_calls=[]))
+            continue
         cases.append((spec, plan, store, obs))
         exprs.append(S.coq_case(obs, plan))
         enc = S.e_outcome(obs.outcome)
